@@ -76,7 +76,9 @@ func TestMethodsSmoke(t *testing.T) {
 	if got := Dump(a); got != "0=wecn1;1=wecs<x>;2=wecs<y>;3=wecn3;length=w--n4;ext;proto:AP" {
 		t.Errorf("splice receiver: %s", got)
 	}
-	if th := Try(func() { m.Reduce(ObjV(arr(m, nil, nil)), []Value{ObjV(m.NewFunction("f", func(*Machine, Value, []Value) Value { return Undefined }))}) }); th == nil || th.Class != "TypeError" {
+	if th := Try(func() {
+		m.Reduce(ObjV(arr(m, nil, nil)), []Value{ObjV(m.NewFunction("f", func(*Machine, Value, []Value) Value { return Undefined }))})
+	}); th == nil || th.Class != "TypeError" {
 		t.Errorf("reduce over holes: %v", th)
 	}
 	o := m.NewObject()
